@@ -20,12 +20,18 @@ ASSUMPTIONS = ['CPython str semantics', 'the model driver is the compiled form o
                'a comment ends at the next line break (\\n or \\r) or at the end of input; at the end of input only '
                'at the top level (inside a group the closing delimiter would be part of the comment)',
                'tree shape = normal form of the canonical tree with the text of comment leaves blanked']
+LEAN_TARGETS = LEAN_TARGETS + ['TexSoupProofs.Properties.TableSpec']
+# entries of the generated tables that the property's statement names (they stop compiling when a table edit drops them)
+THEOREMS = THEOREMS + ['TexSoup.TableSpec.' + n for n in ['end_of_line_chars', 'comment_ignored_invalid_chars']]
 
 _CACHE = {}
 
 HOSTILE = ('}', '{', ']', '[', '$', '$$', '\\', '\\\\', '\\begin{x}', '\\end{x}', '\\item', '%', '\\(', '\\)', '\\[',
            '\\]', '\\end{itemize}', '\\end{center}', '\\end{equation}', '\\begin{verbatim}', '\\zq{a}', '\\begin{zq}',
            ' ', 'a', '\\textbf', '\\%', '{a}', '\\left(', '\\end{verbatim}', '\\end{lstlisting}', '\\end{Verbatim}')
+# characters that look like line ends to str.splitlines()/isspace() but are ordinary characters of the line: a comment
+# runs on over them
+LOOKALIKE = ('\x0b', '\x0c', '\x1c', '\x85', '\u2028', '\u2029', '\xa0', 'é')
 LIVE = ('note', ' \\zq{a}.', ' {b}.', '', ' $m$.', '\\zq.')        # payloads after an escaped percent: parsed normally
 PROBES = ('zq', 'x', 'item', 'textbf', 'begin', 'end', 'verbatim', 'left(', 'itemize', '$', '$$', 'BraceGroup',
           'BracketGroup', 'displaymath', 'math', 'a')
@@ -84,7 +90,8 @@ def _gen_random(rng, i, job):
     if nbs % 2:
         payload = rng.choice(LIVE)
     else:
-        payload = ''.join(rng.choice(HOSTILE) for _ in range(rng.randint(3, 9)))
+        payload = ''.join(rng.choice(HOSTILE) if rng.random() < 0.9 else rng.choice(LOOKALIKE)
+                          for _ in range(rng.randint(3, 9)))
     src, spec = build(ci, eof, nbs, payload, rng.choice(TERMS))
     return src, None, spec
 
@@ -241,6 +248,11 @@ def _enum_items(ctx):
             for nbs in (1, 3):
                 for t in TERMS[:2]:
                     items.append((ci, False, nbs, p, t))
+        for c in LOOKALIKE:
+            for h in ('{', '}', '\\zq{a}', '$', '\\end{center}', '\\item', ']'):
+                for nbs in (0, 2):
+                    items.append((ci, False, nbs, ' ' + c + ' ' + h, '\n'))
+                    items.append((ci, False, nbs, c + h, '\n'))
     for ci in range(len(EOF_CONTEXTS)):
         for p in pay if ctx.thorough else [''.join(t) for t in [(h,) for h in HOSTILE]]:
             for nbs in (0, 2, 4):
